@@ -12,3 +12,4 @@ import Redress.Props.C12
 #print axioms Redress.Props.C12.returns_iff_ok
 #print axioms Redress.Props.C12.async_irrelevant
 #print axioms Redress.Props.C12.call_ignores_timeline
+#print axioms Redress.Props.C12.pcall_pexecute_agree
